@@ -357,6 +357,10 @@ def rules(ctx: Ctx) -> None:
     # session metadata inert without a provider: reuse R13.2's truthiness gating
     common.import_rules(ctx, "C13", {"R13.2": "R05.3"}, key_filter=lambda o: o.key.startswith("lookup-gated-by-truthiness"),
                         key_map=lambda o: "session-metadata-inert-without-provider:" + o.key.split(":", 1)[1])
+    # R05.5 (= R10.11 on the evaluation routine): the statement list, the per-statement results and the combined result are assigned on every
+    # path of a run - a branch that falls through without splitting leaves the list of the constructor (empty) and nothing is analysed
+    ev_owner = common.runner(prog).evaluator.owner
+    common.import_rules(ctx, "C10", {"R10.11": "R05.5"}, key_filter=lambda o: f":{ev_owner}:" in o.key)
 
 
 def _bound_from_analyze(prog: Prog, fn: Fn, e: ast.AST) -> bool:
